@@ -384,3 +384,6 @@ def run(ctx):
         ctx.stats.merge(st_)
     ctx.extra['sweeps'] = (f'{len(sw)} exhaustive sweeps (byte x bit flips and every truncation length of an authentic message '
                            f'addressed to the target) over {"4 representative" if ctx.quick else "all"} keyed states x 2 roles')
+    if not ctx.quick:
+        import sys as _sys
+        common.hyp_fuzz_stage(ctx, _sys.modules[__name__], 'cases()')
